@@ -229,9 +229,20 @@ func subtreeOf(t Tree, i int) Tree {
 	return out
 }
 
-// culprit finds the first entry that, alone with its ancestors, already makes `fails` true.
-func (r *runner) culprit(c *Case, fails func(sub *Case) bool) int {
-	for i := range c.Tree {
+// culprit finds the first LEAF of the tree (file or empty directory) that, alone with its ancestors, already
+// makes `fails` true. Only leaves are tried: isolated with its ancestors a leaf keeps its kind, whereas a
+// directory isolated from its children would become an empty directory.
+func (r *runner) culprit(c *Case, entries []*entry, fails func(sub *Case) bool) int {
+	var leaves []int
+	for i, e := range entries {
+		if !e.Dir || e.emptyDir {
+			leaves = append(leaves, i)
+		}
+	}
+	if len(leaves) == 1 {
+		return leaves[0] // the tree is that leaf and its ancestors
+	}
+	for _, i := range leaves {
 		sub := &Case{Space: c.Space, Index: c.Index, Backend: c.Backend, Limits: c.Limits, Tree: subtreeOf(c.Tree, i)}
 		if fails(sub) {
 			return i
@@ -255,7 +266,7 @@ func (r *runner) treeClause(c *Case, entries []*entry, family string, ok bool, d
 	}
 	i := -1
 	if len(entries) > 0 {
-		i = r.culprit(c, fails)
+		i = r.culprit(c, entries, fails)
 	}
 	if i < 0 {
 		r.rec.check(c, family, treeDims(c), false, detail, "(tree)", descr)
@@ -578,20 +589,32 @@ func (r *runner) checkView(c *Case, be *backend, kind, archive string, entries [
 			}
 			continue
 		}
+		// the content is read four times: ReadFile, ReadFile, handle, handle
 		want := e.data()
-		for round, name := range []string{"first", "second"} {
-			_ = round
-			b, err := v.ReadFile(p)
-			ok := (err == nil && bytes.Equal(b, want)) || (len(want) == 0 && len(b) == 0 && commonerrors.Any(err, commonerrors.ErrEmpty))
-			chk("ReadFile-"+name+"-read-differs", ok, func() string {
-				return fmt.Sprintf("source %d bytes; ReadFile returned %d bytes, error %v", len(want), len(b), err)
-			})
-		}
-		for _, name := range []string{"first", "second"} {
-			b, err := readViaHandle(v, p)
-			chk("handle-"+name+"-read-differs", err == nil && bytes.Equal(b, want), func() string {
-				return fmt.Sprintf("source %d bytes; GenericOpen+ReadAll returned %d bytes, error %v", len(want), len(b), err)
-			})
+		for n := 0; n < 4; n++ {
+			var b []byte
+			var err error
+			api := "ReadFile"
+			ok := false
+			if n < 2 {
+				b, err = v.ReadFile(p)
+				ok = (err == nil && bytes.Equal(b, want)) || (len(want) == 0 && len(b) == 0 && commonerrors.Any(err, commonerrors.ErrEmpty))
+			} else {
+				api = "GenericOpen"
+				b, err = readViaHandle(v, p)
+				ok = err == nil && bytes.Equal(b, want)
+			}
+			descr := func() string {
+				return fmt.Sprintf("read #%d of the file (%s): source %d bytes; got %d bytes, error %v", n+1, api, len(want), len(b), err)
+			}
+			if n == 0 {
+				chk("first-read-differs", ok, descr)
+			} else {
+				if !ok {
+					bad++
+				}
+				r.rec.check(c, fam("repeated-read-differs"), entryDims(c, e), ok, api, e.Rel, descr)
+			}
 		}
 	}
 
